@@ -178,20 +178,31 @@ func fFamilyModel() (*openfgav1.AuthorizationModel, string) {
 		td.Metadata.Relations[fRelNames[i]] = &openfgav1.RelationMetadata{DirectlyRelatedUserTypes: restr}
 		text = append(text, fRelNames[i]+": "+t)
 	}
+	// tupleset parents: 1 [doc]; 2 [doc, org]; 3 [doc, doc with k, org]; 4 [org, org with k, doc];
+	// 5 [doc, doc with k, bare] where type bare defines no relation
 	pr := []*openfgav1.RelationReference{fRef("doc")}
 	tds := []*openfgav1.TypeDefinition{{Type: "user"}, {Type: "employee"}, td}
 	if parents >= 2 {
-		if parents == 3 {
-			pr = append(pr, fCond(fRef("doc")))
+		switch parents {
+		case 2:
+			pr = append(pr, fRef("org"))
+		case 3:
+			pr = append(pr, fCond(fRef("doc")), fRef("org"))
+		case 4:
+			pr = []*openfgav1.RelationReference{fRef("org"), fCond(fRef("org")), fRef("doc")}
+		case 5:
+			pr = append(pr, fCond(fRef("doc")), fRef("bare"))
+			tds = append(tds, &openfgav1.TypeDefinition{Type: "bare"})
 		}
-		pr = append(pr, fRef("org"))
-		org := &openfgav1.TypeDefinition{Type: "org", Relations: map[string]*openfgav1.Userset{}, Metadata: &openfgav1.Metadata{Relations: map[string]*openfgav1.RelationMetadata{}}}
-		for i := 0; i < n; i++ {
-			org.Relations[fRelNames[i]] = fThis()
-			org.Metadata.Relations[fRelNames[i]] = &openfgav1.RelationMetadata{DirectlyRelatedUserTypes: []*openfgav1.RelationReference{fRef("employee")}}
+		if parents != 5 {
+			org := &openfgav1.TypeDefinition{Type: "org", Relations: map[string]*openfgav1.Userset{}, Metadata: &openfgav1.Metadata{Relations: map[string]*openfgav1.RelationMetadata{}}}
+			for i := 0; i < n; i++ {
+				org.Relations[fRelNames[i]] = fThis()
+				org.Metadata.Relations[fRelNames[i]] = &openfgav1.RelationMetadata{DirectlyRelatedUserTypes: []*openfgav1.RelationReference{fRef("employee")}}
+			}
+			tds = append(tds, org)
 		}
-		tds = append(tds, org)
-		text = append(text, fmt.Sprintf("p: %d parents, org.*: [employee]", parents))
+		text = append(text, fmt.Sprintf("p: parents variant %d", parents))
 	}
 	td.Relations["p"] = fThis()
 	td.Metadata.Relations["p"] = &openfgav1.RelationMetadata{DirectlyRelatedUserTypes: pr}
